@@ -536,15 +536,15 @@ Qed.
 (* ------------------------------------------------------------------ *)
 (* auth.Client.Do on top                                                *)
 
-Lemma auth_do_attempts warm p cn bd sc :
-  let a := auth_do warm p cn bd sc in
+Lemma auth_do_at_attempts warm p cn bd sc t0 :
+  let a := auth_do_at warm p cn bd sc t0 in
   1 <= Z.of_nat (length (attempts (a_first a))) <= maxr p + 1 /\
   Z.of_nat (length (attempts (a_second a))) <= maxr p + 1 /\
   Z.of_nat (length (attempts (a_third a))) <= maxr p + 1.
 Proof.
-  unfold auth_do.
-  pose proof (round_trip_attempts p cn bd (init_state bd) sc 0) as H1. cbv zeta in H1.
-  set (o1 := round_trip p cn bd (init_state bd) sc 0) in *.
+  unfold auth_do_at.
+  pose proof (round_trip_attempts p cn bd (init_state bd) sc t0) as H1. cbv zeta in H1.
+  set (o1 := round_trip p cn bd (init_state bd) sc t0) in *.
   assert (Hm : 0 <= maxr p + 1) by (unfold maxr; lia).
   destruct (challenged (o_res o1));
     [|cbn [a_first a_second a_third attempts length]; repeat split; try apply H1; exact Hm].
@@ -559,6 +559,13 @@ Proof.
   pose proof (round_trip_attempts p cn bd st3 (o_script o2) (o_time o2)) as H3. cbv zeta in H3.
   repeat split; try apply H1; try apply H2; apply H3.
 Qed.
+
+Lemma auth_do_attempts warm p cn bd sc :
+  let a := auth_do warm p cn bd sc in
+  1 <= Z.of_nat (length (attempts (a_first a))) <= maxr p + 1 /\
+  Z.of_nat (length (attempts (a_second a))) <= maxr p + 1 /\
+  Z.of_nat (length (attempts (a_third a))) <= maxr p + 1.
+Proof. exact (auth_do_at_attempts warm p cn bd sc 0). Qed.
 
 Lemma bodies_ok_app bd sc base l1 l2 :
   bodies_ok bd sc base l1 -> bodies_ok bd sc (base + length l1) l2 -> bodies_ok bd sc base (l1 ++ l2).
@@ -576,7 +583,7 @@ Lemma auth_do_bodies warm p cn bd sc :
   let a := auth_do warm p cn bd sc in
   bodies_ok bd sc 0 (attempts (a_first a) ++ attempts (a_second a) ++ attempts (a_third a)).
 Proof.
-  intro Hwf. unfold auth_do.
+  intro Hwf. unfold auth_do, auth_do_at.
   destruct (round_trip_bodies_gen p cn bd sc 0%nat (init_state bd) 0 Hwf eq_refl) as (B1 & S1 & N1).
   cbn [skipn] in *.
   set (o1 := round_trip p cn bd (init_state bd) sc 0) in *.
@@ -611,7 +618,7 @@ Lemma auth_do_not_replayable warm p cn bd sc :
   (challenged (o_res (round_trip p cn bd (init_state bd) sc 0)) = true ->
    a_res a = RNotRewindable \/ a_res a = RGetBodyFailed).
 Proof.
-  intro Hrw. unfold auth_do.
+  intro Hrw. unfold auth_do, auth_do_at.
   destruct (round_trip_not_replayable p cn bd (init_state bd) sc 0 Hrw)
     as (bh & sc' & got & st1 & o & t1 & _ & _ & Htr & _).
   set (o1 := round_trip p cn bd (init_state bd) sc 0) in *.
@@ -748,7 +755,7 @@ Lemma auth_do_cancel warm p bd sc tc dl :
   Forall (fun x => fst x <= tc) (attempts (a_first a) ++ attempts (a_second a) ++ attempts (a_third a)) /\
   a_time a <= tc.
 Proof.
-  intro Htc. unfold auth_do.
+  intro Htc. unfold auth_do, auth_do_at.
   destruct (round_trip_cancel p bd (init_state bd) sc 0 tc dl Htc) as (A1 & T1 & _).
   set (o1 := round_trip p (Some (tc, dl)) bd (init_state bd) sc 0) in *.
   destruct (challenged (o_res o1));
@@ -765,4 +772,87 @@ Proof.
   destruct (round_trip_cancel p bd st3 (o_script o2) (o_time o2) tc dl T2) as (A3 & T3 & _).
   split; [|assumption].
   apply Forall_app; split; [assumption|]. apply Forall_app; split; assumption.
+Qed.
+
+(* ------------------------------------------------------------------ *)
+(* auth.Client.Do started anywhere in a script, and blobStore.Push on top *)
+
+Lemma auth_do_at_bodies_gen warm p cn bd sc0 base t0 :
+  wf_body bd ->
+  let a := auth_do_at warm p cn bd (skipn base sc0) t0 in
+  bodies_ok bd sc0 base (auth_attempts a).
+Proof.
+  intro Hwf. unfold auth_do_at, auth_attempts.
+  destruct (round_trip_bodies_gen p cn bd sc0 base (init_state bd) t0 Hwf eq_refl) as (B1 & S1 & N1).
+  set (o1 := round_trip p cn bd (init_state bd) (skipn base sc0) t0) in *.
+  destruct (challenged (o_res o1)); [|cbn [a_first a_second a_third attempts]; rewrite !app_nil_r; exact B1].
+  destruct (rewind bd (o_st o1)) as [st2| |] eqn:Hrw; cbn [a_first a_second a_third attempts];
+    try (rewrite !app_nil_r; exact B1).
+  assert (Hf : s_rest st2 = bdata bd) by (eapply rewind_fresh; eauto).
+  rewrite S1.
+  destruct (round_trip_bodies_gen p cn bd sc0 (base + length (attempts (o_trace o1))) st2 (o_time o1) Hwf Hf)
+    as (B2 & S2 & N2).
+  set (o2 := round_trip p cn bd st2 (skipn (base + length (attempts (o_trace o1))) sc0) (o_time o1)) in *.
+  destruct (warm && bearer_challenged (o_res o1) && unauthorized (o_res o2)).
+  2:{ cbn [a_first a_second a_third attempts]. rewrite app_nil_r. apply bodies_ok_app; assumption. }
+  destruct (rewind bd (o_st o2)) as [st3| |] eqn:Hrw2; cbn [a_first a_second a_third attempts];
+    try (rewrite app_nil_r; apply bodies_ok_app; assumption).
+  assert (Hf3 : s_rest st3 = bdata bd) by (eapply rewind_fresh; eauto).
+  rewrite S2.
+  destruct (round_trip_bodies_gen p cn bd sc0
+              (base + length (attempts (o_trace o1)) + length (attempts (o_trace o2))) st3 (o_time o2) Hwf Hf3)
+    as (B3 & _ & _).
+  apply bodies_ok_app; [exact B1|]. apply bodies_ok_app; [exact B2|exact B3].
+Qed.
+
+Lemma plain_do_at_bodies_gen p cn bd sc0 base t0 :
+  wf_body bd ->
+  bodies_ok bd sc0 base (auth_attempts (plain_do_at p cn bd (skipn base sc0) t0)).
+Proof.
+  intro Hwf. unfold plain_do_at, auth_attempts. cbn [a_first a_second a_third attempts].
+  rewrite !app_nil_r.
+  destruct (round_trip_bodies_gen p cn bd sc0 base (init_state bd) t0 Hwf eq_refl) as (B1 & _ & _).
+  exact B1.
+Qed.
+
+(* blob push: every request of the PUT -- first attempt, retries, re-send after a challenge --
+   carries the blob as far as the registry reads it; the script position of the PUT's
+   requests starts after the POST's *)
+Lemma blob_push_bodies authc p cn bd sc :
+  wf_body bd ->
+  match u_put (blob_push authc p cn bd sc) with
+  | Some put => bodies_ok bd sc (length (auth_attempts (u_post (blob_push authc p cn bd sc)))) (auth_attempts put)
+  | None => True
+  end.
+Proof.
+  intro Hwf. unfold blob_push.
+  set (post := if authc then auth_do_at false p cn no_body sc 0 else plain_do_at p cn no_body sc 0).
+  destruct (accepted (a_res post)); cbn [u_put u_post]; [|exact I].
+  destruct (authc && negb match attempts (a_second post) with [] => false | _ :: _ => true end).
+  - apply auth_do_at_bodies_gen. exact Hwf.
+  - apply plain_do_at_bodies_gen. exact Hwf.
+Qed.
+
+(* a one-shot blob is sent once by the PUT; nothing truncated is ever re-sent *)
+Lemma blob_push_not_replayable authc p cn bd sc :
+  (forall st', rewind bd st' = RwNoGetBody \/ rewind bd st' = RwGetBodyErr) ->
+  match u_put (blob_push authc p cn bd sc) with
+  | Some put => length (auth_attempts put) = 1%nat
+  | None => True
+  end.
+Proof.
+  intro Hrw. unfold blob_push.
+  set (post := if authc then auth_do_at false p cn no_body sc 0 else plain_do_at p cn no_body sc 0).
+  destruct (accepted (a_res post)); cbn [u_put]; [|exact I].
+  set (sc' := skipn (length (auth_attempts post)) sc).
+  destruct (round_trip_not_replayable p cn bd (init_state bd) sc' (a_time post) Hrw)
+    as (bh & sc'' & got & st1 & o & t1 & _ & _ & Htr & _).
+  destruct (authc && negb match attempts (a_second post) with [] => false | _ :: _ => true end).
+  - unfold auth_do_at, auth_attempts.
+    set (o1 := round_trip p cn bd (init_state bd) sc' (a_time post)) in *.
+    destruct (challenged (o_res o1)).
+    + destruct (Hrw (o_st o1)) as [E|E]; rewrite E; cbn [a_first a_second a_third attempts];
+        rewrite Htr; reflexivity.
+    + cbn [a_first a_second a_third attempts]. rewrite Htr. reflexivity.
+  - unfold plain_do_at, auth_attempts. cbn [a_first a_second a_third attempts]. rewrite Htr. reflexivity.
 Qed.
